@@ -85,6 +85,12 @@ def handle : List String → String
         (if parent == "none" then none else some (cps parent)) (cps s) with
     | none => "KeyError"
     | some r => showL r
+  | ["fmtsub", lang, fn, classDefaults, cdataArg, parent, s] =>
+    -- an instance of a SUBCLASS whose class-level HTML_DEFAULTS["cdata_containing_tags"] is `classDefaults`
+    let d : List PStr := (splitNE ";" classDefaults).map cps
+    let arg : Option (List PStr) := if cdataArg == "none" then none else some ((splitNE ";" cdataArg).map cps)
+    let e := mkFormatter d (lang == "x") fn.toNat! arg
+    showL (formatterSubstitute T X e (if parent == "none" then none else some (cps parent)) (cps s))
   | ["fmtlang", lang, fn, cdataArg, parent, s] =>
     -- Formatter(language=lang, fn, cdata_containing_tags=cdataArg): lang = none | - (empty string) | code points
     let l : Option PStr := if lang == "none" then none else some (cps lang)
@@ -96,6 +102,7 @@ def handle : List String → String
     | none => "no-formatter"
     | some e =>
       let val : AttrVal := if kind == "absent" then .absent else if kind == "str" then .str (cps v)
+        else if kind == "charset" then .charset (cps v)
         else .list ((splitNE ";" v).map cps)
       showL (formatAttribute T X e (cps key) val)
   | ["populate-live"] => showPopulate BS.Gen.C09.html5Items BS.Gen.C09.codepoint2name
